@@ -286,7 +286,7 @@ int main(int argc, char** argv)
 {
 	Ctx c = parseArgs(argc, argv);
 	Rng rng(c.seed * 0x1000 + 6 + VF_ALLOC * 0x100);
-	unsigned runs = c.thorough ? 40 : 8, ops = c.thorough ? 900 : 450;
+	unsigned runs = c.thorough ? 60 : 16, ops = c.thorough ? 900 : 450;
 	if (VF_ALLOC != 0) { runs = c.thorough ? 12 : 3; }
 	{
 		typedef momo::stdish::set<KV, LessK, AllocOf<KV>::type> M; typedef std::set<KV, LessK, AllocOf<KV>::type> S;
